@@ -18,15 +18,21 @@ import (
 // are whatever the Go runtime does; only the property is evaluated (no model line).
 
 type liveChain struct {
-	mu sync.RWMutex
-	c  *chainT
-	db *dbChain
+	mu    sync.RWMutex
+	c     *chainT
+	db    *dbChain
+	useDB bool      // answer from the real chain DB (side-branch blocks are found by id) instead of the block slice
+	hist  []*chainT // every chain that has been the main chain
 }
 
 func (l *liveChain) set(c *chainT) {
-	db := newDBChain(c)
+	l.setDB(c, newDBChain(c))
+}
+
+func (l *liveChain) setDB(c *chainT, db *dbChain) {
 	l.mu.Lock()
 	l.c, l.db = c, db
+	l.hist = append(l.hist, c)
 	l.mu.Unlock()
 }
 func (l *liveChain) get() (*chainT, *dbChain) {
@@ -37,15 +43,24 @@ func (l *liveChain) get() (*chainT, *dbChain) {
 func (l *liveChain) GetGenesisInfo() *types.Genesis { return nil }
 func (l *liveChain) GetConsensusInfo() string       { return "" }
 func (l *liveChain) GetBestBlock() (*types.Block, error) {
-	c, _ := l.get()
+	c, db := l.get()
+	if l.useDB {
+		return db.cs.GetBestBlock()
+	}
 	return (&memChain{c}).GetBestBlock()
 }
 func (l *liveChain) GetBlock(h []byte) (*types.Block, error) {
-	c, _ := l.get()
+	c, db := l.get()
+	if l.useDB {
+		return db.cs.GetBlock(h)
+	}
 	return (&memChain{c}).GetBlock(h)
 }
 func (l *liveChain) GetHashByNo(no types.BlockNo) ([]byte, error) {
-	c, _ := l.get()
+	c, db := l.get()
+	if l.useDB {
+		return db.cs.GetHashByNo(no)
+	}
 	return (&memChain{c}).GetHashByNo(no)
 }
 func (l *liveChain) GetChainStats() string                                       { return "" }
@@ -153,11 +168,16 @@ type e2eScenario struct {
 	finderDrop bool // the first remote request of the finder is never answered
 	stopAt    int   // inject a stop request before pump step k (-1: never)
 	seed      uint64
+	wire      *wireCfg // non-nil: the requests go through the real P2P request path (wiree2e.go)
 }
 
 func (sc *e2eScenario) String() string {
-	return fmt.Sprintf("L=%d F=%d R=%d peers=%d hashReq=%d fetch=%d pend=%d tasks=%d full=%v fault%%=%d addErrAt=%d hashFault=%d@%d finderDrop=%v stopAt=%d seed=%d",
+	s := fmt.Sprintf("L=%d F=%d R=%d peers=%d hashReq=%d fetch=%d pend=%d tasks=%d full=%v fault%%=%d addErrAt=%d hashFault=%d@%d finderDrop=%v stopAt=%d seed=%d",
 		sc.L, sc.F, sc.R, sc.npeers, sc.hashReq, sc.fetchSize, sc.pendConn, sc.tasks, sc.fullOnly, sc.faultPct, sc.addErrAt, sc.hashFault, sc.hashAt, sc.finderDrop, sc.stopAt, sc.seed)
+	if sc.wire != nil {
+		s += " wire{" + sc.wire.String() + "}"
+	}
+	return s
 }
 
 type e2eResult struct {
@@ -168,6 +188,11 @@ type e2eResult struct {
 	steps     int
 	hung      string
 	log       []string
+	probes    int      // GetHashByNo requests of the finder (> 0: the full scan ran)
+	light     []string // what the finder was answered on its anchor list ("nil" or a height), in order
+	ancFailed bool     // the ancestor exchange failed below the syncer (no answer of the remote chain service / failure status)
+	hbnFailed bool     // a hash-by-no exchange failed below the syncer
+	hist      []*chainT // the chains that were the local main chain during the session (more than one: it changed)
 }
 
 type e2eEnv struct {
@@ -178,6 +203,8 @@ type e2eEnv struct {
 	local  *liveChain
 	remote *chainT
 	alt    *chainT
+	wire   *wireNet
+	swapTo *chainT
 }
 
 var errUserStop = stubErr("c17 stop request")
@@ -214,6 +241,10 @@ func (env *e2eEnv) runSession(sc *e2eScenario, target uint64, faults bool, watch
 		timeout := 40 * time.Millisecond
 		chunkNo, addNo, hashNo, finderReq := 0, 0, 0, 0
 		toSyncer := func(d time.Duration, m interface{}) { p.push(pItem{due: time.Now().Add(d), msg: m, toSyncer: true}) }
+		if env.wire != nil {
+			env.wireSession(sc, faults, rng, res, &mu, logf, func(m interface{}) { toSyncer(0, m) })
+			defer env.wire.set(nil, nil, nil, nil)
+		}
 		for {
 			select {
 			case e := <-notify:
@@ -226,6 +257,18 @@ func (env *e2eEnv) runSession(sc *e2eScenario, target uint64, faults bool, watch
 				continue
 			}
 			res.steps++
+			if faults && sc.wire != nil && sc.wire.swapAt == res.steps && env.swapTo != nil {
+				logf("the local main chain changes (kind %d)", sc.wire.swapKind)
+				_, odb := env.local.get()
+				ndb := newDBChain(env.swapTo)
+				// the blocks of the branch that was left stay in the store
+				for _, b := range odb.c.blocks {
+					if _, e := ndb.cs.GetBlock(b.GetHash()); e != nil {
+						ndb.cs.VerifC17AddSide(b)
+					}
+				}
+				env.local.setDB(env.swapTo, ndb)
+			}
 			if faults && sc.stopAt == res.steps {
 				logf("inject stop request")
 				sy.Receive(actorCtx{m: &message.SyncStop{Seq: seq, FromWho: "user", Err: errUserStop}})
@@ -255,6 +298,10 @@ func (env *e2eEnv) runSession(sc *e2eScenario, target uint64, faults bool, watch
 					logf("ancestor request not answered")
 					break
 				}
+				if env.wire != nil {
+					env.wire.request(m)
+					break
+				}
 				var anc *types.BlockInfo
 				for _, h := range m.Hashes {
 					if b, ok := env.remote.byHash[string(h)]; ok {
@@ -262,16 +309,34 @@ func (env *e2eEnv) runSession(sc *e2eScenario, target uint64, faults bool, watch
 						break
 					}
 				}
+				mu.Lock()
+				if anc == nil {
+					res.light = append(res.light, "nil")
+				} else {
+					res.light = append(res.light, fmt.Sprint(anc.No))
+				}
+				mu.Unlock()
 				toSyncer(2*time.Millisecond, &message.GetSyncAncestorRsp{Seq: m.Seq, Ancestor: anc})
 			case *message.GetHashByNo:
 				finderReq++
+				mu.Lock()
+				res.probes++
+				mu.Unlock()
 				if faults && sc.finderDrop && finderReq == 1 {
 					logf("hash-by-no request not answered")
+					break
+				}
+				if env.wire != nil {
+					env.wire.request(m)
 					break
 				}
 				toSyncer(0, &message.GetHashByNoRsp{Seq: m.Seq, BlockHash: env.remote.hashAt(m.BlockNo)})
 			case *message.GetHashes:
 				hashNo++
+				if env.wire != nil {
+					env.wire.request(m)
+					break
+				}
 				rsp := &message.GetHashesRsp{Seq: m.Seq, PrevInfo: m.PrevInfo}
 				for i := uint64(1); i <= m.Count; i++ {
 					if h := env.remote.hashAt(m.PrevInfo.No + i); h != nil {
@@ -295,6 +360,10 @@ func (env *e2eEnv) runSession(sc *e2eScenario, target uint64, faults bool, watch
 				}
 			case *message.GetBlockChunks:
 				chunkNo++
+				if env.wire != nil {
+					env.wire.request(m)
+					break
+				}
 				kind := fHonest
 				if faults && rng.Intn(100) < sc.faultPct {
 					kind = 1 + rng.Intn(len(faultNames)-1)
@@ -396,25 +465,39 @@ func e2eCheck(run *vh.Run, sc *e2eScenario, what string, local, remote *chainT, 
 	anc := -1
 	if res.ancestor != nil {
 		anc = int(res.ancestor.No)
-		if !sameAt(local, remote, uint64(anc)) || string(res.ancestor.Hash) != string(local.hashAt(uint64(anc))) {
-			return fail(fmt.Sprintf("ancestor %d is not a block both chains have", anc))
+		chains := res.hist
+		if len(chains) == 0 {
+			chains = []*chainT{local}
 		}
-		la := uint64(0)
-		for _, a := range anchorsOf(local.best()) {
-			la = a
-		}
-		lightNone := sc.fullOnly
-		if !lightNone {
-			lightNone = true
-			for _, a := range anchorsOf(local.best()) {
-				if sameAt(local, remote, a) {
-					lightNone = false
-				}
+		onSome := false
+		for _, lc := range chains {
+			if sameAt(lc, remote, uint64(anc)) && string(res.ancestor.Hash) == string(lc.hashAt(uint64(anc))) {
+				onSome = true
 			}
 		}
-		_ = la
-		if lightNone && anc != highestCommon(local, remote) {
-			return fail(fmt.Sprintf("no anchor is shared but ancestor %d is not the highest shared block %d", anc, highestCommon(local, remote)))
+		if !onSome {
+			return fail(fmt.Sprintf("ancestor %d is not a block of the local main chain that the remote main chain has", anc))
+		}
+		if len(chains) == 1 {
+			lightNone := sc.fullOnly
+			if !lightNone {
+				lightNone = true
+				for _, a := range anchorsOf(local.best()) {
+					if sameAt(local, remote, a) {
+						lightNone = false
+					}
+				}
+			}
+			// the finder took the quick comparison for "none" exactly when it went on to probe single heights
+			scanned := res.probes > 0
+			if hc := highestCommon(local, remote); (lightNone || scanned) && anc != hc {
+				if !lightNone && res.ancFailed {
+					// the ancestor exchange FAILED below the syncer and the finder was told "no anchor shared"
+					ancFailureAsNone(run, sc, what, anc, hc, res)
+				} else {
+					return fail(fmt.Sprintf("the quick anchor comparison found none but ancestor %d is not the highest shared block %d", anc, hc))
+				}
+			}
 		}
 	}
 	if len(res.delivered) > 0 && anc < 0 {
@@ -464,6 +547,19 @@ func runE2E(run *vh.Run, sc *e2eScenario, idx int) (steps int) {
 	alt := newChain(remote, sc.F, sc.R+3, int64(30000+idx))
 	env := &e2eEnv{p: &pump{wake: make(chan struct{}, 1)}, local: &liveChain{}, remote: remote, alt: alt}
 	env.local.set(local)
+	if sc.wire != nil {
+		env.setupWire(sc, local, remote)
+		defer env.wire.close()
+		switch sc.wire.swapKind {
+		case 1:
+			env.swapTo = newChain(local, sc.L, sc.L+2, int64(40000+idx))
+		case 2:
+			env.swapTo = &chainT{}
+			for i := 0; i <= sc.L+1 && i < len(remote.blocks); i++ {
+				env.swapTo.add(remote.blocks[i])
+			}
+		}
+	}
 	env.req = &e2eReq{p: env.p, local: env.local, npeers: sc.npeers}
 	// The finder waits for each answer on an unbuffered channel and the service hands a late answer over
 	// with a blocking send (notes/C17.md): a reply that arrives after the finder gave up would block the
@@ -481,7 +577,15 @@ func runE2E(run *vh.Run, sc *e2eScenario, idx int) (steps int) {
 	defer syncer.VerifC17SetTimers(oldTick, oldHash)
 
 	target := uint64(sc.R)
-	res := env.runSession(sc, target, true, 12*time.Second)
+	wd := 12 * time.Second
+	if sc.L > 100 {
+		wd = 40 * time.Second
+	}
+	res := env.runSession(sc, target, true, wd)
+	res.hist = append([]*chainT{}, env.local.hist...)
+	if len(res.hist) > 1 {
+		run.Count("e2e:local-chain-changed-during-session")
+	}
 	run.Eval("e2e:"+sc.String(), res.ended && len(res.delivered) > 0)
 	if res.hung != "" {
 		e2eCheck(run, sc, "first session", local, remote, target, res, false)
@@ -534,13 +638,14 @@ func runE2E(run *vh.Run, sc *e2eScenario, idx int) (steps int) {
 			map[string]interface{}{"scenario": sc.String(), "log": res.log})
 	}
 	// a later synchronisation can start: the node now has what was connected; the remote chain has grown
-	local2 := local
-	if res.ancestor != nil && int(res.ancestor.No)+len(res.delivered) > sc.L {
+	local2, _ := env.local.get()
+	if res.ancestor != nil && int(res.ancestor.No)+len(res.delivered) > int(local2.best()) {
 		local2 = &chainT{}
 		for i := 0; i <= int(res.ancestor.No)+len(res.delivered); i++ {
 			local2.add(remote.blocks[i])
 		}
 	}
+	env.local.hist = nil
 	env.local.set(local2)
 	syncer.VerifC17SetFetchTimeout(env.cfg, 20*time.Second)
 	syncer.VerifC17SetTimers(3*time.Millisecond, 60*time.Second)
@@ -599,5 +704,19 @@ func e2eRuns(run *vh.Run, n int) {
 			runE2E(run, &c, n+1000*k)
 			run.Count("e2e:stop-injected")
 		}
+	}
+}
+
+// ancFailureAsNone: candidate finding - a failed ancestor exchange reaches the finder as "no anchor shared"
+// (p2p/ancestorreceiver.go: any status but OK => Ancestor: nil), the full scan below LastAnchor then returns a shared
+// block that is not the highest shared one. Counted, with the first replay kept in the samples, until the lead decides.
+var ancFailureShown bool
+
+func ancFailureAsNone(run *vh.Run, sc *e2eScenario, what string, anc, hc int, res *e2eResult) {
+	run.Count("candidate:C17-ancestor-failure-read-as-none")
+	if !ancFailureShown {
+		ancFailureShown = true
+		run.Sample(fmt.Sprintf("candidate C17-ancestor-failure-read-as-none: %s: ancestor %d, highest shared %d, light replies %v, probes %d; scenario %s",
+			what, anc, hc, res.light, res.probes, sc.String()))
 	}
 }
